@@ -7,6 +7,7 @@ package c18
 // violation naming the boundary and the failure point.  Canonical observations are also compared with the Lean model.
 
 import (
+	"encoding/hex"
 	"fmt"
 	"math/rand"
 	"sort"
@@ -14,20 +15,28 @@ import (
 	"testing"
 	"time"
 
+	"cosmossdk.io/collections"
 	sdkmath "cosmossdk.io/math"
+	cmtproto "github.com/cometbft/cometbft/proto/tendermint/types"
 	codectypes "github.com/cosmos/cosmos-sdk/codec/types"
 	sdk "github.com/cosmos/cosmos-sdk/types"
 	authtypes "github.com/cosmos/cosmos-sdk/x/auth/types"
 	banktypes "github.com/cosmos/cosmos-sdk/x/bank/types"
+	crisistypes "github.com/cosmos/cosmos-sdk/x/crisis/types"
 	govtypes "github.com/cosmos/cosmos-sdk/x/gov/types"
 	govv1 "github.com/cosmos/cosmos-sdk/x/gov/types/v1"
 	transfertypes "github.com/cosmos/ibc-go/v8/modules/apps/transfer/types"
 	clienttypes "github.com/cosmos/ibc-go/v8/modules/core/02-client/types"
 	channeltypes "github.com/cosmos/ibc-go/v8/modules/core/04-channel/types"
+	host "github.com/cosmos/ibc-go/v8/modules/core/24-host"
+	"github.com/cosmos/ibc-go/v8/modules/core/exported"
+	localhost "github.com/cosmos/ibc-go/v8/modules/light-clients/09-localhost"
+	capabilitytypes "github.com/cosmos/ibc-go/modules/capability/types"
 	"github.com/ethereum/go-ethereum/common"
 
 	fxtypes "github.com/functionx/fx-core/v8/types"
 	crosschaintypes "github.com/functionx/fx-core/v8/x/crosschain/types"
+	fxevmtypes "github.com/functionx/fx-core/v8/x/evm/types"
 	fxgov "github.com/functionx/fx-core/v8/x/gov"
 	ibcmwtypes "github.com/functionx/fx-core/v8/x/ibc/middleware/types"
 
@@ -38,13 +47,14 @@ func TestC18(t *testing.T) {
 	seed := hx.Seed()
 	rng := rand.New(rand.NewSource(seed))
 	out := hx.NewOut()
-	defer out.Close("four tolerated-failure boundaries on the real keepers (attestation handler, inbound bridge call, passed proposal, IBC receive) x failure points (token exists / FX decimals / missing oracle set; revert, store+revert, invalid opcode, out of gas, disabled pair first/middle/last, unknown token; failing message first/middle/last; foreign voucher, bech32 receiver, reverting memo call, store+revert memo call). monitor: key-level multistore dump after the failure == dump of the designated outcome applied on a fresh branch of the same pre-state. non-trivial = distinct (boundary, failure point, configuration)")
+	defer out.Close("four tolerated-failure boundaries on the real keepers x failure points. attestation: every claim type (bridge token new / existing / FX with wrong decimals / FX ok, oracle set missing / nonce 0, send-to-fx, bridge call, bridge call result). inbound bridge call (real ExecuteClaim): 0..3 tokens, refund ==/<> receiver, funded or not, memo send-call-to, target without code; revert, store+revert, invalid opcode, out of gas at several gas caps, successful code under a too small gas cap, insufficient balance for the call value, disabled pair at the first/middle/last token, unknown token. gov (real EndBlocker): 1..4 messages (bank sends, contract calls that write storage), the failing one first/middle/last: overdrawn send, reverting / store+revert / invalid / out-of-gas contract, address without code, a handler that PANICS after a write (MsgVerifyInvariant on a broken invariant). IBC receive, each scenario through the mimicked core AND through the real ibc-go core RecvPacket over the localhost client: bridged voucher / FX coin, hex / bech32 receiver, foreign voucher, receive disabled, disabled pair, memo that is not a call, invalid memo, call revert / store+revert / invalid / out of gas / insufficient balance / CallEVM error. monitors: key-level multistore dump after the failure == dump of the designated outcome applied on a fresh branch of the same pre-state; acknowledgement kind; proposal status. correspondence: bank-level model (bci), compositions compiled from call lists (att/gov/ibc), and Model.C18P.exec on the regenerated structured programs (patt/pgov/pbci/pibc: which leaves' effects are in the state). non-trivial = distinct (boundary, failure point, configuration)")
 
-	nseq := hx.N(8, 40)
+	nseq := hx.N(12, 60)
 	for i := 0; i < nseq; i++ {
 		s := hx.NewSuite(t, 1+rng.Intn(3))
 		e := &env{s: s, rng: rng, chain: "eth", k: s.App.EthKeeper, keys: s.App.GetKVStoreKey()}
 		e.k.SetLastObservedBlockHeight(s.Ctx, 1000, uint64(s.Ctx.BlockHeight()))
+		e.round = i
 		out.Reset()
 		e.runBCI(out, i)
 		e.runAtt(out)
@@ -73,18 +83,20 @@ func ints(xs []sdkmath.Int) string {
 // ---------------------------------------------------------------------------------------------------------
 // boundary 2: inbound bridge call whose contract call fails
 
-var bciFails = []string{"none", "revert", "storerevert", "invalid", "oog", "conv", "pre"}
+var bciFails = []string{"none", "nocontract", "revert", "storerevert", "invalid", "oog", "oogsmall", "insufficient", "conv", "pre"}
+
+type bciCfg struct {
+	same     bool
+	rfund    int64
+	ntok     int
+	fail     string
+	memoCall bool
+}
 
 func (e *env) runBCI(out *hx.Out, round int) {
-	type cfg struct {
-		same  bool
-		rfund int64
-		ntok  int
-		fail  string
-	}
-	var cfgs []cfg
+	var cfgs []bciCfg
 	for _, f := range bciFails {
-		if f == "oog" && round%3 != 0 && hx.Tier() == "quick" {
+		if (f == "oog" || f == "oogsmall") && round%2 != 0 && hx.Tier() == "quick" {
 			continue
 		}
 		for _, same := range []bool{true, false} {
@@ -92,17 +104,30 @@ func (e *env) runBCI(out *hx.Out, round int) {
 			if !same && e.rng.Intn(2) == 0 {
 				rf = 1000
 			}
-			cfgs = append(cfgs, cfg{same, rf, 1 + e.rng.Intn(3), f})
+			ntok := 1 + e.rng.Intn(3)
+			if f != "conv" && f != "pre" && e.rng.Intn(6) == 0 {
+				ntok = 0 // no tokens at all: baseCoins.IsZero()
+			}
+			cfgs = append(cfgs, bciCfg{same, rf, ntok, f, f != "insufficient" && e.rng.Intn(4) == 0})
 		}
 	}
-	// always include the two distinguishing configurations
-	cfgs = append(cfgs, cfg{false, 1000, 2, "revert"}, cfg{false, 0, 2, "storerevert"})
+	// always include the two distinguishing configurations, and the disabled pair at the first / a middle / the last of three
+	cfgs = append(cfgs, bciCfg{false, 1000, 2, "revert", false}, bciCfg{false, 0, 2, "storerevert", false})
+	for idx := 0; idx < 3; idx++ {
+		cfgs = append(cfgs, bciCfg{e.rng.Intn(2) == 0, 0, 3, fmt.Sprintf("conv@%d", idx), false})
+	}
 	for _, c := range cfgs {
-		e.bci(out, c.same, c.rfund, c.ntok, c.fail)
+		e.bci(out, c)
 	}
 }
 
-func (e *env) bci(out *hx.Out, same bool, rfund int64, ntok int, fail string) {
+func (e *env) bci(out *hx.Out, c bciCfg) {
+	same, rfund, ntok, fail := c.same, c.rfund, c.ntok, c.fail
+	forcedIdx := -1
+	if strings.HasPrefix(fail, "conv@") {
+		fmt.Sscanf(fail, "conv@%d", &forcedIdx)
+		fail = "conv"
+	}
 	e.branch(func(ctx sdk.Context) {
 		s := e.s
 		var toks []token
@@ -112,25 +137,50 @@ func (e *env) bci(out *hx.Out, same bool, rfund int64, ntok int, fail string) {
 			amts[i] = sdkmath.NewInt(int64(1 + e.rng.Intn(500)))
 		}
 		target := e.randAddr()
+		sender := e.randAddr()
 		code := codeStoreSuccess
-		failIdx := -1
+		failIdx, preIdx := -1, -1
+		value := sdkmath.ZeroInt()
+		gasCap := int64(0)
+		call := "ok"
 		switch fail {
 		case "revert":
-			code = codeRevert
+			code, call = codeRevert, "revert"
 		case "storerevert":
-			code = codeStoreRevert
+			code, call = codeStoreRevert, "revert"
 		case "invalid":
-			code = codeInvalid
+			code, call = codeInvalid, "invalid"
 		case "oog":
-			code = codeStoreLoop
+			code, call = codeStoreLoop, "oog"
+			gasCap = []int64{30_000, 60_000, 200_000, 3_000_000}[e.rng.Intn(4)] // gas exhaustion at different limits
+		case "oogsmall":
+			call = "oog"
+			gasCap = 21_000 + int64(e.rng.Intn(20_000)) // the otherwise successful callback runs out of gas before / in its SSTORE
+		case "insufficient":
+			value, call = sdkmath.NewInt(1_000_000), "insufficient" // the callback sender cannot pay the call value
 		case "conv":
 			failIdx = e.rng.Intn(ntok) // first / middle / last
+			if forcedIdx >= 0 {
+				failIdx = forcedIdx
+			}
 			e.setPairEnabled(toks[failIdx], false)
+			call = "-"
+		case "nocontract", "pre":
+			call = "-"
 		}
-		if err := s.App.EvmKeeper.CreateContractWithCode(ctx, target, code); err != nil {
-			panic(err)
+		if fail != "nocontract" {
+			if err := s.App.EvmKeeper.CreateContractWithCode(ctx, target, code); err != nil {
+				panic(err)
+			}
 		}
-		refund := target
+		memo := ""
+		receiver := target
+		if c.memoCall {
+			memo = hex.EncodeToString(crosschaintypes.MemoSendCallTo.Bytes())
+			receiver = sender
+			s.MintToken(sender.Bytes(), sdk.NewCoin(fxtypes.DefaultDenom, sdkmath.NewInt(1))) // the raw call is sent by the sender: its account must exist
+		}
+		refund := receiver
 		if !same {
 			refund = e.randAddr()
 		}
@@ -144,18 +194,29 @@ func (e *env) bci(out *hx.Out, same bool, rfund int64, ntok int, fail string) {
 			contracts[i] = tk.contract
 		}
 		if fail == "pre" {
-			contracts[e.rng.Intn(ntok)] = e.ext(e.randAddr()) // unknown token: fails on the outer ctx, before the cache
+			preIdx = e.rng.Intn(ntok)
+			contracts[preIdx] = e.ext(e.randAddr()) // unknown token: fails on the outer ctx, before the cache
 		}
 		const nonce = 7
 		txOrigin := e.ext(e.randAddr())
 		claim := &crosschaintypes.MsgBridgeCallClaim{
 			ChainName: e.chain, BridgerAddress: sdk.AccAddress(e.randAddr().Bytes()).String(), EventNonce: nonce, BlockHeight: 1,
-			Sender: e.ext(e.randAddr()), Refund: e.ext(refund), TokenContracts: contracts, Amounts: amts, To: e.ext(target),
-			Data: "", Value: sdkmath.ZeroInt(), Memo: "", TxOrigin: txOrigin,
+			Sender: e.ext(sender), Refund: e.ext(refund), TokenContracts: contracts, Amounts: amts, To: e.ext(target),
+			Data: "", Value: value, Memo: memo, TxOrigin: txOrigin,
 		}
 		e.k.SavePendingExecuteClaim(ctx, claim)
+		origCp := ctx.ConsensusParams()
+		if gasCap > 0 {
+			cp := ctx.ConsensusParams()
+			nb := cmtproto.BlockParams{MaxBytes: 1 << 20}
+			if cp.Block != nil {
+				nb = *cp.Block
+			}
+			nb.MaxGas = gasCap
+			cp.Block = &nb
+			ctx = ctx.WithConsensusParams(cp)
+		}
 		before := dumpKV(ctx, e.keys)
-		_ = before
 
 		// designated outcome on a fresh branch of the same pre-state: claim consumed, bridge account, refund record
 		bctx, _ := ctx.CacheContext()
@@ -171,24 +232,34 @@ func (e *env) bci(out *hx.Out, same bool, rfund int64, ntok int, fail string) {
 		designated := dumpKV(bctx, e.keys)
 
 		// the real thing, as the precompile runs it: a native action that is reverted as a whole on error
-		tx, write := ctx.CacheContext()
+		tx, write := ctx.WithEventManager(sdk.NewEventManager()).CacheContext()
 		res := hx.Try(func() error { return e.k.ExecuteClaim(tx, nonce) })
 		tag := "err"
+		moved := 0
 		if res == "ok" {
 			write()
 			tag = "ok"
+			moved = countTransfers(tx.EventManager().Events(), sdk.AccAddress(receiver.Bytes()).String(), sdk.AccAddress(refund.Bytes()).String())
+			if same {
+				moved = 0
+			}
 		}
 		after := dumpKV(ctx, e.keys)
+		ctx = ctx.WithConsensusParams(origCp) // observation calls into the EVM are not subject to the scenario's gas cap
 
 		recv, rf, erc := make([]sdkmath.Int, ntok), make([]sdkmath.Int, ntok), make([]sdkmath.Int, ntok)
+		nerc := 0
 		for i, tk := range toks {
-			recv[i] = s.App.BankKeeper.GetBalance(ctx, target.Bytes(), tk.base).Amount
+			recv[i] = s.App.BankKeeper.GetBalance(ctx, receiver.Bytes(), tk.base).Amount
 			rf[i] = s.App.BankKeeper.GetBalance(ctx, refund.Bytes(), tk.base).Amount
-			b, err := s.App.EvmKeeper.ERC20BalanceOf(ctx, tk.erc20, target)
+			b, err := s.App.EvmKeeper.ERC20BalanceOf(ctx, tk.erc20, receiver)
 			if err != nil {
 				panic(err)
 			}
 			erc[i] = sdkmath.NewIntFromBigInt(b)
+			if b.Sign() > 0 {
+				nerc++
+			}
 		}
 		nrec := 0
 		e.k.IterateOutgoingBridgeCalls(ctx, func(*crosschaintypes.OutgoingBridgeCall) bool { nrec++; return false })
@@ -196,27 +267,69 @@ func (e *env) bci(out *hx.Out, same bool, rfund int64, ntok int, fail string) {
 		if _, ok := e.k.GetPendingExecuteClaim(ctx, nonce); ok {
 			pend = 1
 		}
+		slot := 0
+		if s.App.EvmKeeper.GetState(ctx, target, common.Hash{}) != (common.Hash{}) {
+			slot = 1
+		}
 		sm := 0
 		if same {
 			sm = 1
 		}
 		mfail := fail
-		if fail != "none" && fail != "pre" {
+		if fail == "nocontract" {
+			mfail = "none"
+		} else if fail != "none" && fail != "pre" {
 			mfail = "fail"
 		}
-		out.Emit(fmt.Sprintf("bci %d %d %s %s", sm, rfund, ints(amts), mfail),
-			fmt.Sprintf("res=%s recv=%s refund=%s erc=%s records=%d pending=%d", tag, ints(recv), ints(rf), ints(erc), nrec, pend))
+		if ntok > 0 && !c.memoCall { // the bank-level model (Model/C18.BC): receiver = call target
+			out.Emit(fmt.Sprintf("bci %d %d %s %s", sm, rfund, ints(amts), mfail),
+				fmt.Sprintf("res=%s recv=%s refund=%s erc=%s records=%d pending=%d", tag, ints(recv), ints(rf), ints(erc), nrec, pend))
+		}
+		// the regenerated program (Model/C18P.exec on Gen.executeClaimProg)
+		b01 := func(b bool) int {
+			if b {
+				return 1
+			}
+			return 0
+		}
+		dash := func(i int) string {
+			if i < 0 {
+				return "-"
+			}
+			return fmt.Sprint(i)
+		}
+		out.Emit(fmt.Sprintf("pbci %d %s %s %d %d %s %d %d 1", ntok, dash(preIdx), dash(failIdx), b01(fail != "nocontract"), b01(c.memoCall), call, sm, b01(ntok == 0)),
+			fmt.Sprintf("res=%s pending=%d refund=%d moved=%d erc=%d slot=%d", tag, pend, nrec, moved, nerc, slot))
 		point := fail
 		if failIdx >= 0 {
 			point = fmt.Sprintf("conv(disabled pair %d of %d)", failIdx+1, ntok)
 		}
-		cfgs := fmt.Sprintf("refund%sreceiver refundFunded=%v tokens=%d", map[bool]string{true: "==", false: "<>"}[same], rfund > 0, ntok)
+		if gasCap > 0 {
+			point += fmt.Sprintf("(gas cap %d)", gasCap)
+		}
+		cfgs := fmt.Sprintf("refund%sreceiver refundFunded=%v tokens=%d memoSendCallTo=%v", map[bool]string{true: "==", false: "<>"}[same], rfund > 0, ntok, c.memoCall)
 		out.Count("bci:" + fail + ":" + tag)
+		if failIdx >= 0 {
+			pos := "middle"
+			if failIdx == 0 {
+				pos = "first"
+			} else if failIdx == ntok-1 {
+				pos = "last"
+			}
+			if ntok == 1 {
+				pos = "only"
+			}
+			out.Count("bci:conv:" + pos)
+		}
+		out.Count(fmt.Sprintf("bci:tokens=%d", ntok))
 		out.Nontrivial("bci|" + point + "|" + cfgs)
 
-		if fail == "none" || fail == "pre" {
+		if fail == "none" || fail == "pre" || fail == "nocontract" {
 			if fail == "pre" && len(diffKV(before, after)) != 0 {
 				out.Violate("bridge-call-in: failure before the cached region (unknown token) left writes behind: " + joinOrDash(categories(diffKV(before, after), e.chain)))
+			}
+			if fail != "pre" && tag != "ok" {
+				out.Violate(fmt.Sprintf("bridge-call-in: harness scenario %s expected to succeed: %s", fail, firstLine(res)))
 			}
 			return
 		}
@@ -238,6 +351,29 @@ func (e *env) bci(out *hx.Out, same bool, rfund int64, ntok int, fail string) {
 	})
 }
 
+// countTransfers counts bank transfer events from one address to another.
+func countTransfers(evs sdk.Events, from, to string) int {
+	n := 0
+	for _, ev := range evs {
+		if ev.Type != banktypes.EventTypeTransfer {
+			continue
+		}
+		var f, t string
+		for _, a := range ev.Attributes {
+			switch a.Key {
+			case banktypes.AttributeKeySender:
+				f = a.Value
+			case banktypes.AttributeKeyRecipient:
+				t = a.Value
+			}
+		}
+		if f == from && t == to {
+			n++
+		}
+	}
+	return n
+}
+
 func firstLine(s string) string {
 	if i := strings.IndexByte(s, '\n'); i >= 0 {
 		s = s[:i]
@@ -252,7 +388,8 @@ func firstLine(s string) string {
 // boundary 1: observed event whose handler fails
 
 func (e *env) runAtt(out *hx.Out) {
-	for _, kind := range []string{"ok", "exists", "fxdecimals", "oraclesetmissing"} {
+	// every claim type, with a failing handler wherever the handler of that type can fail
+	for _, kind := range []string{"ok", "exists", "fxdecimals", "fxok", "oraclesetmissing", "oraclesetzero", "sendtofx", "bridgecall", "bridgecallresult"} {
 		e.att(out, kind, 1+e.rng.Intn(4))
 	}
 }
@@ -272,22 +409,33 @@ func (e *env) att(out *hx.Out, kind string, nOracles int) {
 		k.SetLastTotalPower(ctx)
 		nonce := k.GetLastObservedEventNonce(ctx) + 1
 		var claim crosschaintypes.ExternalClaim
+		fails := false
+		hcat := "-" // categories the handler writes when it succeeds
 		switch kind {
 		case "ok":
-			claim = &crosschaintypes.MsgBridgeTokenClaim{EventNonce: nonce, BlockHeight: 2000, TokenContract: e.ext(e.randAddr()), Name: "N", Symbol: "NEW", Decimals: 18, ChainName: e.chain}
+			claim, hcat = &crosschaintypes.MsgBridgeTokenClaim{EventNonce: nonce, BlockHeight: 2000, TokenContract: e.ext(e.randAddr()), Name: "N", Symbol: "NEW", Decimals: 18, ChainName: e.chain}, "bridgeDenom"
 		case "exists":
 			tk := e.addToken(true)
-			claim = &crosschaintypes.MsgBridgeTokenClaim{EventNonce: nonce, BlockHeight: 2000, TokenContract: tk.contract, Name: "N", Symbol: "DUP", Decimals: 18, ChainName: e.chain}
+			claim, fails = &crosschaintypes.MsgBridgeTokenClaim{EventNonce: nonce, BlockHeight: 2000, TokenContract: tk.contract, Name: "N", Symbol: "DUP", Decimals: 18, ChainName: e.chain}, true
 		case "fxdecimals":
-			claim = &crosschaintypes.MsgBridgeTokenClaim{EventNonce: nonce, BlockHeight: 2000, TokenContract: e.ext(e.randAddr()), Name: "FX", Symbol: fxtypes.DefaultDenom, Decimals: 6, ChainName: e.chain}
+			claim, fails = &crosschaintypes.MsgBridgeTokenClaim{EventNonce: nonce, BlockHeight: 2000, TokenContract: e.ext(e.randAddr()), Name: "FX", Symbol: fxtypes.DefaultDenom, Decimals: uint64([]int{0, 6, 17, 19}[e.rng.Intn(4)]), ChainName: e.chain}, true
+		case "fxok":
+			claim, hcat = &crosschaintypes.MsgBridgeTokenClaim{EventNonce: nonce, BlockHeight: 2000, TokenContract: e.ext(e.randAddr()), Name: "FX", Symbol: fxtypes.DefaultDenom, Decimals: 18, ChainName: e.chain}, "bridgeDenom"
 		case "oraclesetmissing":
-			claim = &crosschaintypes.MsgOracleSetUpdatedClaim{EventNonce: nonce, BlockHeight: 2000, OracleSetNonce: 99, Members: []crosschaintypes.BridgeValidator{{Power: 1, ExternalAddress: e.ext(e.randAddr())}}, ChainName: e.chain}
+			claim, fails = &crosschaintypes.MsgOracleSetUpdatedClaim{EventNonce: nonce, BlockHeight: 2000, OracleSetNonce: 99, Members: []crosschaintypes.BridgeValidator{{Power: 1, ExternalAddress: e.ext(e.randAddr())}}, ChainName: e.chain}, true
+		case "oraclesetzero":
+			claim, hcat = &crosschaintypes.MsgOracleSetUpdatedClaim{EventNonce: nonce, BlockHeight: 2000, OracleSetNonce: 0, Members: []crosschaintypes.BridgeValidator{{Power: 1, ExternalAddress: e.ext(e.randAddr())}}, ChainName: e.chain}, "lastObservedOracleSet"
+		case "sendtofx":
+			claim, hcat = &crosschaintypes.MsgSendToFxClaim{EventNonce: nonce, BlockHeight: 2000, TokenContract: e.ext(e.randAddr()), Amount: sdkmath.NewInt(5), Sender: e.ext(e.randAddr()), Receiver: sdk.AccAddress(e.randAddr().Bytes()).String(), ChainName: e.chain}, "pendingClaim"
+		case "bridgecall":
+			claim, hcat = &crosschaintypes.MsgBridgeCallClaim{EventNonce: nonce, BlockHeight: 2000, Sender: e.ext(e.randAddr()), Refund: e.ext(e.randAddr()), To: e.ext(e.randAddr()), Value: sdkmath.ZeroInt(), TxOrigin: e.ext(e.randAddr()), ChainName: e.chain}, "pendingClaim"
+		case "bridgecallresult":
+			claim, hcat = &crosschaintypes.MsgBridgeCallResultClaim{EventNonce: nonce, BlockHeight: 2000, Nonce: 1, TxOrigin: e.ext(e.randAddr()), Success: true, ChainName: e.chain}, "pendingClaim"
 		}
 		for _, o := range oracles {
 			k.SetLastEventNonceByOracle(ctx, o, nonce-1)
 		}
 		var pre kvDump
-		var last sdk.AccAddress
 		observed := false
 		for _, o := range oracles {
 			pre = dumpKV(ctx, e.keys)
@@ -310,7 +458,6 @@ func (e *env) att(out *hx.Out, kind string, nOracles int) {
 			k.SetLastEventNonceByOracle(bctx, o, nonce)
 			k.SetLastEventBlockHeightByOracle(bctx, o, claim.GetBlockHeight())
 			designated := dumpKV(bctx, e.keys)
-			last = o
 			res := hx.Try(func() error { _, err := k.Attest(ctx, o, claim); return err })
 			if res != "ok" {
 				out.Violate("attestation: Attest failed: " + firstLine(res))
@@ -322,13 +469,19 @@ func (e *env) att(out *hx.Out, kind string, nOracles int) {
 				after := dumpKV(ctx, e.keys)
 				cats := categories(diffKV(pre, after), e.chain)
 				f := "-"
-				if kind != "ok" {
+				okw := "ok"
+				if fails {
 					f = fmt.Sprint(e.rng.Intn(3))
+					okw = "fail"
 				}
-				out.Emit(fmt.Sprintf("att 1 %s", f), "cats="+joinOrDash(cats))
+				if hcat == "bridgeDenom" || fails {
+					out.Emit(fmt.Sprintf("att 1 %s", f), "cats="+joinOrDash(cats)) // composition compiled from the call lists (Model/C18)
+				}
+				out.Emit(fmt.Sprintf("patt %s %s", hcat, okw), "flow=brk cats="+joinOrDash(cats)) // regenerated program (Model/C18P)
 				out.Count("att:" + kind)
+				out.Count("att:claim:" + strings.TrimPrefix(fmt.Sprintf("%T", claim), "*types."))
 				out.Nontrivial(fmt.Sprintf("att|%s|oracles=%d", kind, nOracles))
-				if kind != "ok" {
+				if fails {
 					if extra := diffKV(after, designated); len(extra) > 0 {
 						out.Violate(fmt.Sprintf("attestation: handler failed (%s), state differs from observed-mark-only in %s", kind, joinOrDash(categories(extra, e.chain))))
 					}
@@ -336,7 +489,6 @@ func (e *env) att(out *hx.Out, kind string, nOracles int) {
 				break
 			}
 		}
-		_ = last
 		if !observed {
 			out.Violate("attestation: event not observed after all votes (" + kind + ")")
 		}
@@ -346,34 +498,99 @@ func (e *env) att(out *hx.Out, kind string, nOracles int) {
 // ---------------------------------------------------------------------------------------------------------
 // boundary 4: IBC packet whose follow-up fails
 
+var ibcScenarios = []string{
+	"ok-bridged", "ok-fx-call", "ok-fx-nojson", "ok-bridged-call",
+	"foreign", "apperr-disabled", "bech-nonfx", "disabledpair",
+	"callrevert-bridged", "callstorerevert-bridged", "callinvalid-bridged", "calloog-bridged", "callinsufficient-bridged",
+	"callrevert-fx", "callinvalid-fx", "calloog-fx", "callinsufficient-fx", "callnosender-fx", "badmemo-fx",
+}
+
 func (e *env) runIBC(out *hx.Out) {
-	for _, sc := range []string{"ok-bridged", "ok-fx-call", "foreign", "bech-nonfx", "callrevert-bridged", "callstorerevert-bridged", "callrevert-fx", "callinvalid-fx"} {
-		e.ibc(out, sc)
+	for _, sc := range ibcScenarios {
+		e.ibc(out, sc, false)
+		e.ibc(out, sc, true)
 	}
 }
 
-func (e *env) ibc(out *hx.Out, sc string) {
+// coreChannel sets up a channel pair over the 09-localhost client / sentinel localhost connection of this chain, so
+// that the REAL ibc-go core RecvPacket (proof verification against this chain's own store, replay protection, the
+// cache around the application callback, WriteAcknowledgement) can be run: transfer/<src> -> transfer/<dst>.
+func (e *env) coreChannel(ctx sdk.Context) (port, src, dst string) {
+	s := e.s
+	ik := s.App.IBCKeeper
+	port = transfertypes.PortID
+	params := ik.ClientKeeper.GetParams(ctx)
+	allowed := false
+	for _, c := range params.AllowedClients {
+		if c == exported.Localhost || c == "*" {
+			allowed = true
+		}
+	}
+	if !allowed {
+		params.AllowedClients = append(params.AllowedClients, exported.Localhost)
+		ik.ClientKeeper.SetParams(ctx, params)
+	}
+	if _, ok := ik.ClientKeeper.GetClientState(ctx, exported.LocalhostClientID); !ok {
+		if err := ik.ClientKeeper.CreateLocalhostClient(ctx); err != nil {
+			panic(err)
+		}
+	}
+	ik.ConnectionKeeper.CreateSentinelLocalhostConnection(ctx)
+	seq := ik.ChannelKeeper.GetNextChannelSequence(ctx)
+	src = fmt.Sprintf("channel-%d", seq)
+	dst = fmt.Sprintf("channel-%d", seq+1)
+	ik.ChannelKeeper.SetNextChannelSequence(ctx, seq+2)
+	for _, pr := range [][2]string{{src, dst}, {dst, src}} {
+		ch := channeltypes.NewChannel(channeltypes.OPEN, channeltypes.UNORDERED, channeltypes.NewCounterparty(port, pr[1]), []string{exported.LocalhostConnectionID}, transfertypes.Version)
+		ik.ChannelKeeper.SetChannel(ctx, port, pr[0], ch)
+		ik.ChannelKeeper.SetNextSequenceSend(ctx, port, pr[0], 1)
+		ik.ChannelKeeper.SetNextSequenceRecv(ctx, port, pr[0], 1)
+		ik.ChannelKeeper.SetNextSequenceAck(ctx, port, pr[0], 1)
+		cap, err := s.App.ScopedIBCKeeper.NewCapability(ctx, host.ChannelCapabilityPath(port, pr[0]))
+		if err != nil {
+			panic(err)
+		}
+		if err := s.App.ScopedTransferKeeper.ClaimCapability(ctx, capabilitytypes.NewCapability(cap.Index), host.ChannelCapabilityPath(port, pr[0])); err != nil {
+			panic(err)
+		}
+	}
+	return port, src, dst
+}
+
+func (e *env) ibc(out *hx.Out, sc string, core bool) {
 	e.branch(func(ctx sdk.Context) {
 		s := e.s
-		port, ch := s.GenIBCTransferChannel()
+		var port, srcCh, ch string
+		if core {
+			port, srcCh, ch = e.coreChannel(ctx)
+		} else {
+			port, ch = s.GenIBCTransferChannel()
+			srcCh = ch
+		}
 		amount := sdkmath.NewInt(int64(1 + e.rng.Intn(1000)))
 		recvHex := e.randAddr()
 		receiver := recvHex.Hex()
 		denom := ""
 		memo := ""
 		target := e.randAddr()
+		callValue := sdkmath.ZeroInt()
+		senderExists := true
+		gasCap := int64(0)
 		mk := func(code []byte) string {
 			if err := s.App.EvmKeeper.CreateContractWithCode(ctx, target, code); err != nil {
 				panic(err)
 			}
-			is := ibcmwtypes.IntermediateSender(port, ch, "cosmos1remotesender")
-			s.MintToken(is.Bytes(), sdk.NewCoin(fxtypes.DefaultDenom, sdkmath.NewInt(1))) // CallEVM needs the sender account to exist
-			bz, err := s.App.AppCodec().MarshalInterfaceJSON(&ibcmwtypes.IbcCallEvmPacket{To: target.Hex(), Value: sdkmath.ZeroInt(), Data: ""})
+			is := ibcmwtypes.IntermediateSender(port, srcCh, "cosmos1remotesender")
+			if senderExists {
+				s.MintToken(is.Bytes(), sdk.NewCoin(fxtypes.DefaultDenom, sdkmath.NewInt(1))) // CallEVM needs the sender account to exist
+			}
+			bz, err := s.App.AppCodec().MarshalInterfaceJSON(&ibcmwtypes.IbcCallEvmPacket{To: target.Hex(), Value: callValue, Data: ""})
 			if err != nil {
 				panic(err)
 			}
 			return string(bz)
 		}
+		var pairDenom string
 		bridged := func() string {
 			e.ntok++
 			base := fmt.Sprintf("ibt%d%c", e.ntok, 'a'+rune(e.rng.Intn(26)))
@@ -381,59 +598,158 @@ func (e *env) ibc(out *hx.Out, sc string) {
 			// the transfer application sets bank metadata for every voucher it mints, so ManyToOne resolves the voucher denom to
 			// itself: the ERC-20 pair has to be registered on the voucher denom
 			s.AddTokenPair(ibcDenom, true)
+			pairDenom = ibcDenom
 			return "u" + base
 		}
 		fx := func() string {
 			esc := transfertypes.GetEscrowAddress(port, ch)
 			s.MintToken(esc, sdk.NewCoin(fxtypes.DefaultDenom, amount.MulRaw(2)))
 			s.App.IBCTransferKeeper.SetTotalEscrowForDenom(ctx, sdk.NewCoin(fxtypes.DefaultDenom, amount.MulRaw(2)))
-			return fmt.Sprintf("%s/%s/%s", port, ch, fxtypes.DefaultDenom)
+			return fmt.Sprintf("%s/%s/%s", port, srcCh, fxtypes.DefaultDenom)
 		}
+		// model parameters: transfer application, fx coin?, hex receiver?, conversion, memo, call
+		mApp, mFx, mEvm, mConv, mMemo, mCall := "ok", false, true, "ok", "none", "-"
 		expectFail := true
 		switch sc {
 		case "ok-bridged":
 			denom, expectFail = bridged(), false
+		case "ok-bridged-call":
+			denom, memo, expectFail = bridged(), mk(codeStoreSuccess), false
+			mMemo, mCall = "call", "ok"
 		case "ok-fx-call":
 			denom, memo, expectFail = fx(), mk(codeStoreSuccess), false
+			mFx, mConv, mMemo, mCall = true, "-", "call", "ok"
+		case "ok-fx-nojson":
+			denom, memo, expectFail = fx(), "hello, not a call", false // a memo that is not an ibc-call packet: tolerated, no call
+			mFx, mConv, mMemo = true, "-", "nojson"
 		case "foreign":
-			denom = "uforeign"
+			denom = "uforeign" // voucher without ERC-20 pair: the conversion fails after the transfer application minted
+			mConv = "err"
+		case "apperr-disabled":
+			denom = bridged()
+			s.App.IBCTransferKeeper.SetParams(ctx, transfertypes.Params{SendEnabled: true, ReceiveEnabled: false})
+			mApp, mConv = "err", "-"
 		case "bech-nonfx":
 			denom, receiver = bridged(), sdk.AccAddress(recvHex.Bytes()).String()
+			mEvm, mConv = false, "-"
+		case "disabledpair":
+			denom = bridged()
+			pair, ok := s.App.Erc20Keeper.GetTokenPair(ctx, pairDenom)
+			if !ok {
+				panic("pair")
+			}
+			pair.Enabled = false
+			s.App.Erc20Keeper.SetTokenPair(ctx, pair)
+			mConv = "err"
 		case "callrevert-bridged":
 			denom, memo = bridged(), mk(codeRevert)
+			mMemo, mCall = "call", "revert"
 		case "callstorerevert-bridged":
 			denom, memo = bridged(), mk(codeStoreRevert)
+			mMemo, mCall = "call", "revert"
+		case "callinvalid-bridged":
+			denom, memo = bridged(), mk(codeInvalid)
+			mMemo, mCall = "call", "invalid"
+		case "calloog-bridged":
+			denom, memo = bridged(), mk(codeStoreLoop)
+			mMemo, mCall = "call", "oog"
+			gasCap = []int64{30_000, 100_000, 1_000_000}[e.rng.Intn(3)]
+		case "callinsufficient-bridged":
+			callValue = sdkmath.NewInt(1_000_000)
+			denom, memo = bridged(), mk(codeStoreSuccess)
+			mMemo, mCall = "call", "insufficient"
 		case "callrevert-fx":
 			denom, memo = fx(), mk(codeRevert)
+			mFx, mConv, mMemo, mCall = true, "-", "call", "revert"
 		case "callinvalid-fx":
 			denom, memo = fx(), mk(codeInvalid)
+			mFx, mConv, mMemo, mCall = true, "-", "call", "invalid"
+		case "calloog-fx":
+			denom, memo = fx(), mk(codeStoreLoop)
+			mFx, mConv, mMemo, mCall = true, "-", "call", "oog"
+			gasCap = []int64{30_000, 100_000, 1_000_000}[e.rng.Intn(3)]
+		case "callinsufficient-fx":
+			callValue = sdkmath.NewInt(1_000_000)
+			denom, memo = fx(), mk(codeStoreSuccess)
+			mFx, mConv, mMemo, mCall = true, "-", "call", "insufficient"
+		case "callnosender-fx":
+			senderExists = false // CallEVM itself returns an error (no account for the intermediate sender)
+			denom, memo = fx(), mk(codeStoreSuccess)
+			mFx, mConv, mMemo, mCall = true, "-", "call", "err"
+		case "badmemo-fx":
+			denom = fx()
+			bz, err := s.App.AppCodec().MarshalInterfaceJSON(&ibcmwtypes.IbcCallEvmPacket{To: "not-an-address", Value: sdkmath.ZeroInt(), Data: ""})
+			if err != nil {
+				panic(err)
+			}
+			memo = string(bz)
+			mFx, mConv, mMemo = true, "-", "invalid"
+		}
+		origCp := ctx.ConsensusParams()
+		if gasCap > 0 {
+			cp := ctx.ConsensusParams()
+			nb := cmtproto.BlockParams{MaxBytes: 1 << 20}
+			if cp.Block != nil {
+				nb = *cp.Block
+			}
+			nb.MaxGas = gasCap
+			cp.Block = &nb
+			ctx = ctx.WithConsensusParams(cp)
 		}
 		data := transfertypes.NewFungibleTokenPacketData(denom, amount.String(), "cosmos1remotesender", receiver, memo)
 		seq := uint64(1 + e.rng.Intn(100))
-		packet := channeltypes.NewPacket(data.GetBytes(), seq, port, ch, port, ch, clienttypes.NewHeight(100, 100000), 0)
-		mod, ok := s.App.IBCKeeper.Router.GetRoute(transfertypes.ModuleName)
-		if !ok {
-			panic("no transfer route")
-		}
+		packet := channeltypes.NewPacket(data.GetBytes(), seq, port, srcCh, port, ch, clienttypes.NewHeight(100, 100000), 0)
 		parent := ctx
 		bctx, _ := parent.CacheContext() // sibling branch of the same pre-state for the designated outcome
 		ctx, _ = parent.CacheContext()
-		// IBC core: callback on a cache branch, committed only on a successful acknowledgement
-		cctx, write := ctx.CacheContext()
-		ack := mod.OnRecvPacket(cctx, packet, sdk.AccAddress(e.randAddr().Bytes()))
-		if ack == nil || ack.Success() {
-			write()
+		successAck := channeltypes.CommitAcknowledgement(channeltypes.NewResultAcknowledgement([]byte{byte(1)}).Acknowledgement())
+		var ackHash []byte
+		ackOK := false
+		if core {
+			// the counterparty end committed the packet; core verifies that commitment through the localhost client
+			s.App.IBCKeeper.ChannelKeeper.SetPacketCommitment(ctx, port, srcCh, seq, channeltypes.CommitPacket(s.App.AppCodec(), packet))
+			s.App.IBCKeeper.ChannelKeeper.SetPacketCommitment(bctx, port, srcCh, seq, channeltypes.CommitPacket(s.App.AppCodec(), packet))
+			relayer := sdk.AccAddress(e.randAddr().Bytes())
+			res := hx.Try(func() error {
+				_, err := s.App.IBCKeeper.RecvPacket(ctx, &channeltypes.MsgRecvPacket{Packet: packet, ProofCommitment: localhost.SentinelProof, ProofHeight: clienttypes.NewHeight(0, uint64(ctx.BlockHeight())), Signer: relayer.String()})
+				return err
+			})
+			if res != "ok" {
+				out.Violate("ibc-recv: core RecvPacket returned an error (" + sc + "): " + firstLine(res))
+				return
+			}
+			var found bool
+			ackHash, found = s.App.IBCKeeper.ChannelKeeper.GetPacketAcknowledgement(ctx, port, ch, seq)
+			if !found {
+				out.Violate("ibc-recv: core RecvPacket wrote no acknowledgement (" + sc + ")")
+				return
+			}
+			ackOK = string(ackHash) == string(successAck)
+			// designated: replay protection receipt + the acknowledgement
+			s.App.IBCKeeper.ChannelKeeper.SetPacketReceipt(bctx, port, ch, seq)
+		} else {
+			mod, ok := s.App.IBCKeeper.Router.GetRoute(transfertypes.ModuleName)
+			if !ok {
+				panic("no transfer route")
+			}
+			// IBC core mimicked: callback on a cache branch, committed only on a successful acknowledgement
+			cctx, write := ctx.CacheContext()
+			ack := mod.OnRecvPacket(cctx, packet, sdk.AccAddress(e.randAddr().Bytes()))
+			if ack == nil || ack.Success() {
+				write()
+			}
+			ackOK = ack.Success()
+			ackHash = channeltypes.CommitAcknowledgement(ack.Acknowledgement())
+			s.App.IBCKeeper.ChannelKeeper.SetPacketAcknowledgement(ctx, port, ch, seq, ackHash)
 		}
-		ackHash := channeltypes.CommitAcknowledgement(ack.Acknowledgement())
-		s.App.IBCKeeper.ChannelKeeper.SetPacketAcknowledgement(ctx, port, ch, seq, ackHash)
 		after := dumpKV(ctx, e.keys)
-		// designated: only the acknowledgement
+		ctx = ctx.WithConsensusParams(origCp)
 		s.App.IBCKeeper.ChannelKeeper.SetPacketAcknowledgement(bctx, port, ch, seq, ackHash)
 		designated := dumpKV(bctx, e.keys)
 		extra := diffKV(after, designated)
 		marks := []string{}
 		f := "-"
-		if ack.Success() {
+		if ackOK {
 			marks = append(marks, "ack=ok")
 		} else {
 			marks = append(marks, "ack=err")
@@ -444,16 +760,43 @@ func (e *env) ibc(out *hx.Out, sc string) {
 		}
 		sort.Strings(marks)
 		out.Emit(fmt.Sprintf("ibc 2 %s", f), "marks="+strings.Join(marks, ","))
+		// the regenerated program: which leaves' effects are in the state afterwards
+		b01 := func(b bool) int {
+			if b {
+				return 1
+			}
+			return 0
+		}
+		appW, ercW, slotW := false, false, false
+		for _, k := range extra {
+			if strings.HasPrefix(k, "bank/") {
+				appW = true
+			}
+		}
+		if pairDenom != "" {
+			if pair, ok := s.App.Erc20Keeper.GetTokenPair(ctx, pairDenom); ok {
+				if b, err := s.App.EvmKeeper.ERC20BalanceOf(ctx, pair.GetERC20Contract(), recvHex); err == nil && b.Sign() > 0 {
+					ercW = true
+				}
+			}
+		}
+		if s.App.EvmKeeper.GetState(ctx, target, common.Hash{}) != (common.Hash{}) {
+			slotW = true
+		}
+		ackS := map[bool]string{true: "ok", false: "err"}[ackOK]
+		out.Emit(fmt.Sprintf("pibc %s %d %d %s %s %s", mApp, b01(mFx), b01(mEvm), mConv, mMemo, mCall),
+			fmt.Sprintf("flow=nil ack=%s recv=1 app=%d erc=%d slot=%d", ackS, b01(appW), b01(ercW), b01(slotW)))
 		out.Count("ibc:" + sc)
-		out.Nontrivial("ibc|" + sc)
-		if expectFail && ack.Success() {
+		out.Count("ibc:core=" + fmt.Sprint(core))
+		out.Nontrivial(fmt.Sprintf("ibc|%s|core=%v", sc, core))
+		if expectFail && ackOK {
 			out.Violate("ibc-recv: follow-up failed (" + sc + ") but a success acknowledgement was returned, writes committed: " + joinOrDash(categories(extra, e.chain)))
 		}
-		if !ack.Success() && len(extra) > 0 {
+		if !ackOK && len(extra) > 0 {
 			out.Violate("ibc-recv: error acknowledgement (" + sc + ") but state differs from acknowledgement-only in " + joinOrDash(categories(extra, e.chain)))
 		}
-		if !expectFail && !ack.Success() {
-			out.Violate("ibc-recv: harness scenario " + sc + " expected to succeed but got an error acknowledgement: " + string(ack.Acknowledgement()))
+		if !expectFail && !ackOK {
+			out.Violate("ibc-recv: harness scenario " + sc + " expected to succeed but got an error acknowledgement")
 		}
 	})
 }
@@ -461,22 +804,33 @@ func (e *env) ibc(out *hx.Out, sc string) {
 // ---------------------------------------------------------------------------------------------------------
 // boundary 3: passed proposal whose message fails
 
+var govFailKinds = []string{"overdrawn", "evmrevert", "evmstorerevert", "evminvalid", "evmoog", "nocontract", "panic"}
+
 func (e *env) runGov(out *hx.Out) {
 	n := 1 + e.rng.Intn(4)
-	e.gov(out, n, -1)
-	e.gov(out, n, 0)
-	e.gov(out, n, n-1)
+	kind := func() string { return govFailKinds[e.rng.Intn(len(govFailKinds))] }
+	e.gov(out, n, -1, "")
+	e.gov(out, n, 0, kind())
+	e.gov(out, n, n-1, kind())
 	if n > 2 {
-		e.gov(out, n, 1+e.rng.Intn(n-2))
+		e.gov(out, n, 1+e.rng.Intn(n-2), kind())
+	}
+	// three messages, the failure at the first / the middle / the last one, every failure kind over the rounds
+	k := govFailKinds[e.round%len(govFailKinds)]
+	for idx := 0; idx < 3; idx++ {
+		e.gov(out, 3, idx, k)
 	}
 }
 
-// gov runs the same pre-state twice: proposal A = n bank sends from the gov account, the one at failIdx overdrawn
-// (fails after the earlier messages have written); proposal B = a single overdrawn send (fails with no write at all:
-// its outcome is the designated one).  Everything except the proposal record itself must be identical afterwards.
-func (e *env) gov(out *hx.Out, n, failIdx int) {
+// gov runs the same pre-state twice: proposal A = n messages executed by the gov account (bank sends and contract calls
+// that write a storage slot), the one at failIdx failing AFTER the earlier messages have written (overdrawn send,
+// reverting / invalid / out-of-gas contract, call to an address without code); proposal B = a single overdrawn send
+// (fails with no write at all: its outcome is the designated one).  Everything except the proposal record itself must
+// be identical afterwards.
+func (e *env) gov(out *hx.Out, n, failIdx int, failKind string) {
 	s := e.s
 	govAcc := authtypes.NewModuleAddress(govtypes.ModuleName)
+	lastReason := ""
 	build := func(ctx sdk.Context, msgs []sdk.Msg) (kvDump, govv1.ProposalStatus, bool) {
 		gk := s.App.GovKeeper
 		proposer := sdk.AccAddress(s.ValAddr[0])
@@ -503,27 +857,89 @@ func (e *env) gov(out *hx.Out, n, failIdx int) {
 			return nil, 0, false
 		}
 		ectx := ctx.WithBlockTime(p2.VotingEndTime.Add(time.Second))
-		if err := fxgov.EndBlocker(ectx, gk); err != nil {
+		cp := ectx.ConsensusParams()
+		nb := cmtproto.BlockParams{MaxBytes: 1 << 20}
+		if cp.Block != nil {
+			nb = *cp.Block
+		}
+		nb.MaxGas = 400_000 // keeps the out-of-gas contract short
+		cp.Block = &nb
+		ectx = ectx.WithConsensusParams(cp)
+		if res := hx.Try(func() error { return fxgov.EndBlocker(ectx, gk) }); res != "ok" {
+			lastReason = "EndBlocker: " + firstLine(res)
 			return nil, 0, false
 		}
 		p3, err := gk.Keeper.Proposals.Get(ctx, p.Id)
 		if err != nil {
 			return nil, 0, false
 		}
+		lastReason = p3.FailedReason
 		d := dumpKV(ctx, e.keys)
 		return d, p3.Status, true
 	}
 	e.branch(func(ctx sdk.Context) {
 		s.MintToken(govAcc, sdk.NewCoin(fxtypes.DefaultDenom, sdkmath.NewInt(1_000_000)))
-		send := func(amt int64) sdk.Msg {
-			return &banktypes.MsgSend{FromAddress: govAcc.String(), ToAddress: sdk.AccAddress(e.randAddr().Bytes()).String(), Amount: sdk.NewCoins(sdk.NewCoin(fxtypes.DefaultDenom, sdkmath.NewInt(amt)))}
+		var recipients []sdk.AccAddress
+		var okContracts []common.Address
+		send := func(amt int64, track bool) sdk.Msg {
+			to := sdk.AccAddress(e.randAddr().Bytes())
+			if track {
+				recipients = append(recipients, to)
+			}
+			a := sdkmath.NewInt(amt)
+			if !track {
+				a = sdkmath.NewIntWithDecimal(1, 40) // overdrawn whatever the gov account holds
+			}
+			return &banktypes.MsgSend{FromAddress: govAcc.String(), ToAddress: to.String(), Amount: sdk.NewCoins(sdk.NewCoin(fxtypes.DefaultDenom, a))}
+		}
+		call := func(code []byte) sdk.Msg {
+			target := e.randAddr()
+			if code != nil {
+				if err := s.App.EvmKeeper.CreateContractWithCode(ctx, target, code); err != nil {
+					panic(err)
+				}
+			}
+			return &fxevmtypes.MsgCallContract{Authority: govAcc.String(), ContractAddress: target.Hex(), Data: "00"}
 		}
 		var msgsA []sdk.Msg
 		for i := 0; i < n; i++ {
-			if i == failIdx {
-				msgsA = append(msgsA, send(1_000_000_000_000))
-			} else {
-				msgsA = append(msgsA, send(int64(1+e.rng.Intn(1000))))
+			if i != failIdx {
+				if e.rng.Intn(3) == 0 { // a successful contract call that writes storage
+					m := call(codeStoreSuccess).(*fxevmtypes.MsgCallContract)
+					okContracts = append(okContracts, common.HexToAddress(m.ContractAddress))
+					msgsA = append(msgsA, m)
+				} else {
+					msgsA = append(msgsA, send(int64(1+e.rng.Intn(1000)), true))
+				}
+				continue
+			}
+			switch failKind {
+			case "overdrawn":
+				msgsA = append(msgsA, send(1_000_000_000_000, false))
+			case "evmrevert":
+				msgsA = append(msgsA, call(codeRevert))
+			case "evmstorerevert":
+				msgsA = append(msgsA, call(codeStoreRevert))
+			case "evminvalid":
+				msgsA = append(msgsA, call(codeInvalid))
+			case "evmoog":
+				msgsA = append(msgsA, call(codeStoreLoop))
+			case "nocontract":
+				msgsA = append(msgsA, call(nil))
+			case "panic":
+				// MsgVerifyInvariant pays the constant fee (a write) and then PANICS when the invariant is broken: a deposit
+				// record larger than the gov account's balance breaks gov/module-account
+				fee, err := s.App.CrisisKeeper.ConstantFee.Get(ctx)
+				if err != nil {
+					panic(err)
+				}
+				s.MintToken(govAcc, fee)
+				ghost := sdk.AccAddress(e.randAddr().Bytes())
+				huge := sdk.NewCoins(sdk.NewCoin(fxtypes.DefaultDenom, sdkmath.NewIntWithDecimal(1, 40)))
+				if err := s.App.GovKeeper.Keeper.Deposits.Set(ctx, collections.Join(uint64(1<<40), ghost), govv1.Deposit{ProposalId: 1 << 40, Depositor: ghost.String(), Amount: huge}); err != nil {
+					panic(err)
+				}
+				msgsA = append(msgsA, &crisistypes.MsgVerifyInvariant{Sender: govAcc.String(), InvariantModuleName: govtypes.ModuleName, InvariantRoute: "module-account"})
 			}
 		}
 		actx, _ := ctx.CacheContext()
@@ -531,9 +947,14 @@ func (e *env) gov(out *hx.Out, n, failIdx int) {
 		saved := s.Ctx
 		s.Ctx = actx
 		da, sa, okA := build(actx, msgsA)
+		reasonA := lastReason
 		s.Ctx = bctx
-		db, sb, okB := build(bctx, []sdk.Msg{send(1_000_000_000_000)})
+		db, sb, okB := build(bctx, []sdk.Msg{send(1_000_000_000_000, false)})
 		s.Ctx = saved
+		if !okA && strings.HasPrefix(reasonA, "EndBlocker: ") {
+			out.Violate(fmt.Sprintf("gov: message %d of %d failed (%s) and the failure was not tolerated, %s", failIdx+1, n, failKind, reasonA))
+			return
+		}
 		if !okA || !okB {
 			out.Count("gov:setup-failed")
 			return
@@ -549,31 +970,64 @@ func (e *env) gov(out *hx.Out, n, failIdx int) {
 		if failIdx >= 0 {
 			f = fmt.Sprint(failIdx)
 		}
-		marks := []string{"status=" + map[govv1.ProposalStatus]string{govv1.StatusFailed: "failed", govv1.StatusPassed: "passed"}[sa]}
+		status := map[govv1.ProposalStatus]string{govv1.StatusFailed: "failed", govv1.StatusPassed: "passed"}[sa]
+		marks := []string{"status=" + status}
 		if len(extra) > 0 {
 			marks = append(marks, "msgs")
 		}
 		sort.Strings(marks)
 		out.Emit(fmt.Sprintf("gov %d %s", n, f), "marks="+strings.Join(marks, ","))
+		// the regenerated program: how many of the messages' effects are in the state afterwards
+		paid := 0
+		for _, r := range recipients {
+			if s.App.BankKeeper.GetBalance(actx, r, fxtypes.DefaultDenom).IsPositive() {
+				paid++
+			}
+		}
+		for _, c := range okContracts {
+			if s.App.EvmKeeper.GetState(actx, c, common.Hash{}) != (common.Hash{}) {
+				paid++
+			}
+		}
+		stored := 0
+		if sa == govv1.StatusFailed || sa == govv1.StatusPassed || sa == govv1.StatusRejected {
+			stored = 1
+		}
+		pk := "err"
+		if failKind == "panic" {
+			pk = "panic"
+		}
+		out.Emit(fmt.Sprintf("pgov %d %s %s", n, f, pk), fmt.Sprintf("flow=nil status=%s stored=%d paid=%d", status, stored, paid))
 		pos := "none"
 		if failIdx >= 0 {
-			pos = map[bool]string{true: "first", false: "later"}[failIdx == 0]
+			pos = map[bool]string{true: "first", false: "middle"}[failIdx == 0]
 			if failIdx == n-1 && n > 1 {
 				pos = "last"
 			}
+			if n == 1 {
+				pos = "only"
+			}
+			out.Count("gov:kind:" + failKind)
+			if strings.Contains(reasonA, "PANICKED") {
+				out.Count("gov:recovered-panic")
+			} else if failKind == "panic" {
+				out.Violate("gov: harness scenario panic: the message did not panic: " + firstLine(reasonA))
+			}
 		}
 		out.Count("gov:" + pos)
-		out.Nontrivial(fmt.Sprintf("gov|n=%d|fail=%s", n, pos))
+		out.Nontrivial(fmt.Sprintf("gov|n=%d|fail=%s|%s", n, pos, failKind))
 		if sb != govv1.StatusFailed {
 			out.Violate("gov: reference proposal (single overdrawn send) did not end as failed")
 		}
 		if failIdx >= 0 {
 			if sa != govv1.StatusFailed {
-				out.Violate(fmt.Sprintf("gov: message %d of %d failed but proposal status is %s", failIdx+1, n, sa))
+				out.Violate(fmt.Sprintf("gov: message %d of %d failed (%s) but proposal status is %s", failIdx+1, n, failKind, sa))
 			}
 			if len(extra) > 0 {
-				out.Violate(fmt.Sprintf("gov: message %d of %d failed, state differs from status-failed-only in %s", failIdx+1, n, joinOrDash(categories(extra, e.chain))))
+				out.Violate(fmt.Sprintf("gov: message %d of %d failed (%s), state differs from status-failed-only in %s", failIdx+1, n, failKind, joinOrDash(categories(extra, e.chain))))
 			}
+		} else if sa != govv1.StatusPassed {
+			out.Violate(fmt.Sprintf("gov: harness proposal with %d valid messages did not pass: %s", n, sa))
 		}
 	})
 }
